@@ -113,6 +113,9 @@ const _: () = {
         pub(crate) fn init_with_request_bytes(&mut self, bytes: &[u8]) -> Result<(), crate::Response> {
             (bytes.first() == Some(&b'/')).then_some(())
                 .ok_or_else(crate::Response::NotImplemented)?;
+            /* `Path` is seen as `str` */
+            std::str::from_utf8(bytes)
+                .map_err(|_| crate::Response::BadRequest())?;
 
             /*
             Strip trailing '/' **even when `bytes` is just `b"/"`**
